@@ -238,9 +238,16 @@ func (g *cssSheetGen) compound(nestedStart bool) (string, []CSSTok) {
 			add("Colon", ":")
 			add("Function", Pick(r, []string{"not(", "nth-child(", "is("}))
 			if toks[len(toks)-1].Text == "nth-child(" {
-				add("Dimension", Pick(r, []string{"2n", "3n"}))
+				add("Dimension", Pick(r, []string{"2n", "3n", "+3n", "-2n", "+1n"}))
 				if r.Intn(2) == 0 {
-					add("Number", "+1")
+					num := Pick(r, []string{"+1", "-1", "+10"})
+					if num[0] == '-' || r.Intn(2) == 0 {
+						// whitespace between the two numeric tokens of An+B survives: neither is punctuation (a signed
+						// number is not the '+' combinator); "3n-1" without it would be one dimension
+						sb.WriteString(Pick(r, []string{" ", "  ", "\t"}))
+						toks = append(toks, wsTok)
+					}
+					add("Number", num)
 				}
 			} else {
 				add("Delim", ".")
